@@ -23,6 +23,7 @@ type verifWSCodec struct {
 	replies []*jsonrpc2.Message
 	hold    chan struct{} // when set, the connection stays open after the script until hold is closed
 	closed  bool
+	endErr  error // how the session ends: nil = io.EOF, else e.g. a websocket close frame the codec does not map to EOF
 }
 
 func (c *verifWSCodec) ReadMessage() (*jsonrpc2.Message, error) {
@@ -33,6 +34,9 @@ func (c *verifWSCodec) ReadMessage() (*jsonrpc2.Message, error) {
 	}
 	if c.hold != nil {
 		<-c.hold
+	}
+	if c.endErr != nil {
+		return nil, c.endErr
 	}
 	return nil, io.EOF
 }
@@ -85,6 +89,9 @@ func VerifC09Server() {
 		verifapi.Unreachable("c09.server-request")
 	}
 	codec := &verifWSCodec{script: []*jsonrpc2.Message{msg}}
+	if verifapi.Bool("ends-with-error") {
+		codec.endErr = errors.New("websocket: close 1000 (normal)")
+	}
 	open := verifapi.Param("stayopen", 0) == 1
 	if open {
 		codec.hold = make(chan struct{})
